@@ -777,6 +777,9 @@ pub struct Report {
     pub atr_first: Option<(bool, bool, bool)>,
     /// a peer-style Issuance/ATR/Fee-typed transaction was admitted to the pool
     pub priv_admitted: Option<bool>,
+    /// verdict of Block::validate (producer node) on the first produced block whose drained pool held a Fee-typed
+    /// transaction next to the fee transaction create() appends (so the block carries a surplus fee transaction)
+    pub surplus_fee_verdict: Option<bool>,
 }
 
 /// cause class of a failure, computed by the harness alone from features of the input and of the produced block
@@ -1030,6 +1033,13 @@ pub async fn run_scenario(sc: &Scenario, seed: u64, e: &mut Emit<'_>) -> Report 
                 Ok(false) => "0",
                 Err(_) => "panic",
             };
+            if which == "producer" && rep.surplus_fee_verdict.is_none() && pool_now.iter().any(|t| t.transaction_type == TransactionType::Fee) && !ci.atr_payout_present {
+                rep.surplus_fee_verdict = match verdict {
+                    "1" => Some(true),
+                    "0" => Some(false),
+                    _ => None,
+                };
+            }
             let res = guarded_async(n.add_block(block.clone())).await;
             let cls = match &res {
                 Ok(r) => add_result_class(r),
@@ -1100,7 +1110,9 @@ fn flags_line(reps: &[(String, Report)], txv: u8) -> String {
     // fixed = none of the privileged-typed transactions entered the pool
     let privs: Vec<bool> = reps.iter().filter(|(n, _)| n.starts_with("corpus-w3-") || n.starts_with("corpus-w4")).filter_map(|(_, r)| r.priv_admitted).collect();
     let poolpriv = (!privs.is_empty() && privs.iter().all(|a| !*a)) as u8;
-    format!("flags atrcap={} rebhash={} poolpriv={} txv={} atrkey={}", atrcap, rebhash, poolpriv, txv, atrkey)
+    // fixed (F7) = a block carrying a surplus fee transaction (w4b: a Fee-typed pool tx + the appended one) does not validate
+    let feecount = find("corpus-w4b-").and_then(|r| r.surplus_fee_verdict).map(|ok| !ok).unwrap_or(false) as u8;
+    format!("flags atrcap={} rebhash={} poolpriv={} txv={} atrkey={} feecount={}", atrcap, rebhash, poolpriv, txv, atrkey, feecount)
 }
 
 
@@ -1152,7 +1164,7 @@ pub fn run(seed: u64, tier: &str, outdir: &str) {
     let mut lines: Vec<L> = vec![];
     let mut out = Out::new(outdir);
     let exe = std::env::current_exe().unwrap();
-    let mut flags = "flags atrcap=0 rebhash=0 poolpriv=0 txv=0 atrkey=0".to_string();
+    let mut flags = "flags atrcap=0 rebhash=0 poolpriv=0 txv=0 atrkey=0 feecount=0".to_string();
     let mut start = 0usize;
     let mut stalls = 0;
     let mut summary = (0usize, 0usize);
